@@ -7,6 +7,7 @@ configurations; the spec renders each document to the list of shapes with their 
 parser must return the same shapes, in the same order, with the same absolute geometry, with and
 without reification."""
 import io
+import os
 from fractions import Fraction
 from . import engine, c06, c16, docutil
 
@@ -28,9 +29,9 @@ def rat(q):
 
 def parse_kwargs(cfg, k):
     kw = {"ppi": 96.0}
-    if cfg[0] != []:
-        w, h = float(rat(cfg[0])), float(rat(cfg[1]))
-        kw["width"], kw["height"] = (w, h) if k % 2 == 0 else (docutil.length(["abs", cfg[0]], k), docutil.length(["abs", cfg[1]], k + 1))
+    for name, v, kk in (("width", cfg[0], k), ("height", cfg[1], k + 1)):      # either may be supplied on its own
+        if v != []:
+            kw[name] = float(rat(v)) if k % 2 == 0 else docutil.length(["abs", v], kk)
     if cfg[2]:
         kw["transform"] = docutil.TF_STR[cfg[2]]
     return kw
@@ -136,6 +137,29 @@ def run(tier, seed):
             if case["n"] == 7:
                 run.sample({"simulated": True, "xml": r.get("xml"), "cfg": case["cfg"], "expected_shapes": [[o[0], o[2]] for o in case["out"]]})
         run.extra["simulated_documents"] = len(sim)
+        # generated documents: the harness draws closed documents with varied geometry, units, percentages, viewBoxes and
+        # alignments (harness/docgen.py), TLC evaluates DocCore!RenderDoc on each, the parser is compared with that
+        import json
+        import random
+        from . import docgen
+        rng = random.Random(seed * 7907 + 3)
+        ndocs = 1500 if tier == "quick" else 40000
+        docs = [docgen.gen_doc(rng, rng.randint(1, 12)) for _ in range(ndocs)]
+        gen = []
+        for part in range(0, ndocs, 5000):
+            df = os.path.join(work, "docs_%d.json" % part)
+            with open(df, "w") as f:
+                json.dump(docs[part:part + 5000], f)
+            gres = engine.run_tlc(work, "MC_C03", constants={"MaxTok": 0, "Full": "FALSE"}, init="InitGen", next_="NextGen",
+                                  env={"DOCS_FILE": df}, timeout=7200)
+            run.add_tlc(gres, "DocCore!RenderDoc evaluated by TLC on %d generated documents" % len(docs[part:part + 5000]))
+            for i, st in enumerate(engine.read_dump(gres["dump"])):
+                gen.append({"doc": st["doc"], "cfg": st["cfg"], "out": st["out"], "n": part + i, "seed": seed})
+        for case, r in engine.replay("harness.c03", gen, chunk=50):
+            run.record(case, r, key=r.get("xml", str(case["doc"])) + str(case["cfg"]))
+            if case["n"] == 11:
+                run.sample({"generated": True, "xml": r.get("xml"), "cfg": case["cfg"], "expected_shapes": [[o[0], o[2]] for o in case["out"]]})
+        run.extra["generated_documents"] = len(gen)
     finally:
         engine.cleanup(work)
     run.rule = ("cases = states of MC_C03: every token prefix (root variant + <= MaxTok-1 tokens from the alphabet of containers, shapes, use and end) closed "
